@@ -60,9 +60,14 @@ class Slice:
 
 
 class FlowGraph:
-    def __init__(self, ws, fn):
+    def __init__(self, ws, fn, only_blocks=None):
+        """only_blocks: optional {body path: set of block indices}; statements and
+        terminators of other blocks of that body are ignored (used to ask what a
+        value depends on the FIRST time a point is reached, i.e. without the
+        definitions that sit behind a loop back edge)."""
         self.ws = ws
         self.fn = fn
+        self.only_blocks = only_blocks or {}
         self.dep = {}
         self.call_of = {}     # node -> list of (body, block, term) producing it
         self.const_of = {}
@@ -138,8 +143,11 @@ class FlowGraph:
                 if s_["k"] in ("refmut", "rawptr"):
                     other.add(place_local(s_["p"]))
         self._tuples[body.path] = {l_ for l_ in tdefs if l_ not in other}
+        allowed = self.only_blocks.get(body.path)
         for bi, blk in enumerate(body.blocks):
             if blk.get("cleanup"):
+                continue
+            if allowed is not None and bi not in allowed:
                 continue
             for s in blk["s"]:
                 k = s["k"]
